@@ -599,7 +599,7 @@ func TestVerif_C10_Mutate(t *testing.T) {
 func TestVerif_C10_EveryPos(t *testing.T) {
 	vsnap.Quiet()
 	rec := vstat.New(t, "C10", "everypos",
-		"enumeration over small streams (one-table database; shapes F, F+I1, F+I2, X2): for every byte position of the length prefix and header all 8 single-bit flips, drop and insert; for file data every position (thorough) or every stride-th position plus the first/last 3 bytes of every file (quick) one bit flip, drop, insert; truncation at the same positions; extensions by 1, 24 and 4096 bytes; every header-field mutation of every file entry (crc32 := 0 [= field dropped], ^1, ^msb, ffffffff; size_bytes +1, -1, 0; crc32 := 0 or ffffffff combined with a flipped data byte of that file); consumers install (size as declared and size = mutated length) and snapshot.Restore. non-trivial = mutation lands in file data, a size/CRC field, the length prefix or changes the length; distinct by stream+mutation")
+		"enumeration over small streams (one-table database; shapes F, F+I1, F+I2, X2; quick: one of them, chosen by the seed; thorough: all, split over the shards by byte position): for every byte position of the length prefix and header all 8 single-bit flips, drop and insert; for file data every position (thorough) or every stride-th position plus the first/last 3 bytes of every file (quick) one bit flip, drop, insert; truncation at the same positions; extensions by 1, 24 and 4096 bytes; every header-field mutation of every file entry (crc32 := 0 [= field dropped], ^1, ^msb, ffffffff; size_bytes +1, -1, 0; crc32 := 0 or ffffffff combined with a flipped data byte of that file); consumers install (size as declared and size = mutated length) and snapshot.Restore. non-trivial = mutation lands in file data, a size/CRC field, the length prefix or changes the length; distinct by stream+mutation")
 	root, err := os.MkdirTemp("", "c10e")
 	if err != nil {
 		t.Skip()
@@ -650,7 +650,7 @@ func TestVerif_C10_EveryPos(t *testing.T) {
 	if !vstat.Thorough() {
 		// rotate with the seed so that repeated quick runs cover all of them
 		k := int(vstat.Seed() % 4)
-		names = []string{names[k], names[(k+1)%4]}
+		names = []string{names[k]}
 	}
 	failed := false
 	for _, name := range names {
